@@ -223,16 +223,17 @@ example : (runHistory ⟨.absent, none⟩
 
 /-! ## block order (cited by other properties as C15_order_*) -/
 
-/-- **C15_order_sequence** — the statement order the translator reads from `write_to_file` today:
-    message, title, cells, blank, surfaces, blank, data inputs, the modifier cards of the data block,
-    and only then the blank line that ends the data block. (Re-checked against the source on every run.) -/
+/-- **C15_order_sequence** — the order in which `write_to_file` of the working tree writes its segments
+    (observed by the translator on a probe problem, on every run): message, title, cells, blank, surfaces,
+    blank, data inputs, the modifier cards of the data block, and only then the blank line that ends the
+    data block. -/
 theorem C15_order_sequence :
     MontePyVerif.Gen.WriteOrder.sequence
       = [.message, .title, .cells, .blank, .surfaces, .blank, .dataInputs, .modifiers, .blank] ∧
     MontePyVerif.Gen.WriteOrder.recognised = true := by decide
 
-/-- **C15_commit_table** — `MCNP_InputFile.__exit__`/`_discard_temporary` commit with `os.replace` and
-    clean up with `os.remove`; `open` has both guards (tables read from the source on every run). -/
+/-- **C15_commit_table** — `MCNP_InputFile` commits with `os.replace` and cleans up with `os.remove`;
+    `open` has both guards; the handle is ASCII (tables observed on the working tree on every run). -/
 theorem C15_commit_table :
     "replace" ∈ MontePyVerif.Gen.WriteOrder.exitOsCalls ∧ "remove" ∈ MontePyVerif.Gen.WriteOrder.exitOsCalls ∧
     MontePyVerif.Gen.WriteOrder.openGuards = ["FileExistsError", "IsADirectoryError"] ∧
